@@ -40,6 +40,9 @@ pub enum JCmd {
     ChangePassword { user: u32 },
     CreatePat { name: u8 },
     DeletePat { name: u8 },
+    /// update_permissions with `streams` stream records of 3 000 topic records each: an entry of 2 - 3 MB
+    /// (more than one file-layer write; only the schedule engine generates it)
+    HugePermissions { user: u32, streams: u8 },
 }
 
 fn nm(i: u8) -> String {
@@ -80,6 +83,18 @@ fn build(c: &JCmd) -> EntryCommand {
             permissions: perms.as_ref().map(|p| permgen::build(&permgen::normalized(p))),
         }),
         JCmd::UpdatePermissions { user, perms } => EntryCommand::UpdatePermissions(UpdatePermissions { user_id: id(*user), permissions: perms.as_ref().map(|p| permgen::build(&permgen::normalized(p))) }),
+        JCmd::HugePermissions { user, streams } => {
+            use iggy::models::permissions::{GlobalPermissions, Permissions, StreamPermissions, TopicPermissions};
+            let mut sm = ahash::AHashMap::new();
+            for s in 1..=(*streams as u32) {
+                let mut tm = ahash::AHashMap::new();
+                for t in 1..=3000u32 {
+                    tm.insert(t, TopicPermissions { manage_topic: t % 2 == 0, read_topic: true, poll_messages: t % 3 == 0, send_messages: false });
+                }
+                sm.insert(s, StreamPermissions { manage_stream: false, read_stream: true, manage_topics: false, read_topics: true, poll_messages: false, send_messages: false, topics: Some(tm) });
+            }
+            EntryCommand::UpdatePermissions(UpdatePermissions { user_id: id(*user), permissions: Some(Permissions { global: GlobalPermissions::default(), streams: Some(sm) }) })
+        }
         JCmd::ChangePassword { user } => EntryCommand::ChangePassword(ChangePassword { user_id: id(*user), current_password: "".into(), new_password: "$2b$04$zyxwvutsrqponmlkjihgfeJ8Rz1Qv3o3kP2x1Zy0w9v8u7t6s5r4q".into() }),
         JCmd::CreatePat { name } => EntryCommand::CreatePersonalAccessToken(CreatePersonalAccessTokenWithHash {
             command: CreatePersonalAccessToken { name: format!("tok{}", name), expiry: IggyExpiry::NeverExpire },
@@ -394,7 +409,7 @@ impl Engine for Sched {
     type Case = SCase;
     fn strategy(&self, _p: &Params) -> BoxedStrategy<SCase> {
         (
-            proptest::collection::vec(proptest::collection::vec(jcmd_s(), 1..6), 1..=6),
+            proptest::collection::vec(proptest::collection::vec(prop_oneof![150 => jcmd_s(), 1 => (1u32..9, 80u8..=110).prop_map(|(user, streams)| JCmd::HugePermissions { user, streams })], 1..6), 1..=6),
             any::<u64>(),
             prop_oneof![2 => Just(vec![]), 2 => proptest::collection::vec(1u8..20, 1..3)],
             prop_oneof![4 => Just(false), 1 => Just(true)],
@@ -517,6 +532,9 @@ impl Engine for Sched {
         if overlapping {
             out.nontrivial = true;
             out.label("overlapping-appliers");
+        }
+        if case.tasks.iter().flatten().any(|c| matches!(c, JCmd::HugePermissions { .. })) {
+            out.label("entry-over-2MiB");
         }
         if failed > 0 {
             out.nontrivial = true;
